@@ -24,10 +24,18 @@ Bound   == {Absent} \cup Time
 Later   == {"allegra", "mary", "alonzo", "babbage", "conway", "dijkstra"}
 EraSet  == {"shelley"} \cup Later
 
+\* From Alonzo on a transaction carries the is_valid flag. A transaction flagged
+\* is_valid = false (its scripts fail, only its collateral is collected) is still
+\* included in a block, so the interval - a phase-1 check - applies to it
+\* unchanged: Accept does not look at p2.  (Dijkstra's three-element envelope
+\* cannot carry the flag.)
+Flagged == {"alonzo", "babbage", "conway"}
 CaseSpace ==
-    [era : {"shelley"}, start : {Absent}, end : Time, slot : Time]
+    [era : {"shelley"}, start : {Absent}, end : Time, slot : Time, p2 : {FALSE}]
       \cup
-    [era : Later, start : Bound, end : Bound, slot : Time]
+    [era : Later, start : Bound, end : Bound, slot : Time, p2 : {FALSE}]
+      \cup
+    [era : Flagged, start : Bound, end : Bound, slot : Time, p2 : {TRUE}]
 
 LowerOk(c) == c.start = Absent \/ c.slot >= c.start
 UpperOk(c) == c.end = Absent \/ c.slot < c.end
@@ -100,7 +108,10 @@ Boundaries ==
 ShelleyAllegra ==
     (c.era = "shelley" /\ c.end < T) =>
         (Accept(c) <=> Accept([era |-> "allegra", start |-> Absent,
-                               end |-> c.end + 1, slot |-> c.slot]))
+                               end |-> c.end + 1, slot |-> c.slot, p2 |-> FALSE]))
+
+\* the phase-2 flag never changes the verdict
+FlagIrrelevant == c.era \in Flagged => (Accept(c) <=> Accept([c EXCEPT !.p2 = ~c.p2]))
 
 \* the predicted defects are distinguishable from the specification exactly
 \* where Why says so (keeps the known-finding keys honest)
@@ -112,9 +123,10 @@ DefectsNamed ==
 -----------------------------------------------------------------------------
 B(x)   == IF x = Absent THEN "A" ELSE ToString(x)
 Row(x) == [era |-> x.era, start |-> x.start, end |-> x.end, slot |-> x.slot,
-           accept |-> Accept(x), why |-> Why(x),
+           accept |-> Accept(x), why |-> Why(x), p2 |-> x.p2,
            name |-> "era=" \o x.era \o ":start=" \o B(x.start) \o ":end=" \o B(x.end)
-                    \o ":slot=" \o ToString(x.slot) \o ":why=" \o Why(x)]
+                    \o ":slot=" \o ToString(x.slot) \o ":why=" \o Why(x)
+                    \o (IF x.p2 THEN ":p2invalid" ELSE "")]
 
 ASSUME T >= 2
 ASSUME ndJsonSerialize("cases.ndjson", SetToSeq({Row(x) : x \in CaseSpace}))
